@@ -121,8 +121,12 @@ func sState(c *Ctx, rule string) {
 						bad = "snapshot ahead of log but returns (" + i + ", " + t + ")"
 					}
 				default:
-					if !logPair && !snapPair {
-						bad = "equal indexes: returns the mixed pair (" + i + ", " + t + ")"
+					// a tie is decided for the log: after an InstallSnapshot that kept the
+					// log, a stale entry of an older term may sit at the snapshot index;
+					// answering with the snapshot's term would let the follower accept a
+					// request built on the leader's entry and append behind the stale one
+					if !logPair {
+						bad = "equal indexes: must return the log's own pair, returns (" + i + ", " + t + ")"
 					}
 				}
 			}
@@ -130,7 +134,7 @@ func sState(c *Ctx, rule string) {
 				bad = fmt.Sprintf("%d reachable returns for log %s snapshot", n, ordNames[o])
 			}
 		}
-		c.Check(rule, "getLastEntry:newest-of-log-and-snapshot", c.P.Pos(fn.Pos()), "returns the (index, term) pair of whichever of log tail / snapshot has the larger index, never a mixed pair (3 orderings)", bad == "", pick(bad == "", "verified over 3 orderings", bad), 3)
+		c.Check(rule, "getLastEntry:newest-of-log-and-snapshot", c.P.Pos(fn.Pos()), "returns the (index, term) pair of whichever of log tail / snapshot has the larger index, the log's pair on a tie, never a mixed pair (3 orderings)", bad == "", pick(bad == "", "verified over 3 orderings", bad), 3)
 	}
 	// configuration setters
 	for _, sp := range []struct{ fn, cfg, idx string }{
